@@ -389,7 +389,16 @@ pub fn run_families(opts: &RunOpts, families: Vec<Family>) -> Summary {
                     case.prop = opts.prop.clone();
                     case.family = fam.name.to_string();
                     case.run = off;
-                    let out = run_case(&case);
+                    let out = match std::panic::catch_unwind(std::panic::AssertUnwindSafe(|| run_case(&case))) {
+                        Ok(o) => o,
+                        Err(_) => {
+                            eprintln!(
+                                "harness error: internal panic while running {} {}#{}: {}\ncase: {}",
+                                opts.prop, fam.name, off, exec::take_last_panic(), case.json()
+                            );
+                            std::process::exit(2);
+                        }
+                    };
                     local.evaluations += 1;
                     *local.families.entry(fam.name.to_string()).or_insert(0) += 1;
                     local.stats.merge(&out.stats);
